@@ -25,7 +25,7 @@ RULE = ("(A) Delta(name, point, log_density) with number / batched tensor / lazy
         "sample inputs, seed); non-trivial when a mass/affine identity was checked on >=2 elements; distinct by that tuple + data hash")
 ASSUMPTIONS = ["numpy global RNG is the numpy backend's only random state", "non-unit-mass Deltas are used for point evaluation only"]
 MIN_NONTRIVIAL = {"quick": 3000, "thorough": 30000}
-REQUIRED_COUNTERS = ["delta-point:ok", "delta-reduce:ok", "delta-integrate:ok", "delta-integrate-weighted:ok", "tensor-sample:mass-ok", "tensor-sample:reseed-ok", "gaussian-sample:mass-ok", "gaussian-reparam:affine-ok", "mixture-sample:mass-ok"]
+REQUIRED_COUNTERS = ["delta-point:ok", "delta-reduce:ok", "delta-integrate:ok", "delta-integrate-weighted:ok", "delta-multi-partial-reduce:ok", "tensor-sample:mass-ok", "tensor-sample:reseed-ok", "gaussian-sample:mass-ok", "gaussian-reparam:affine-ok", "mixture-sample:mass-ok"]
 
 
 def plan(tier, seed):
@@ -184,6 +184,31 @@ def part_delta(rng, res, riders, i):
                         case={"f": f_int.data, "point": pidx, "form": form, "w": wdata})
                 else:
                     res.count("%s:ok" % label)
+    # a two-variable point mass batched over b, reduced over one of its variables and the batch input at once: at every value of the
+    # kept variable the result is the log of the number of batch elements whose point has that value
+    nu, nv = int(rng.integers(2, 4)), int(rng.integers(2, 4))
+    pu = rng.integers(0, nu, size=(bsz,))
+    pv = rng.integers(0, nv, size=(bsz,))
+    try:
+        DD = Delta("u", Tensor(pu, OrderedDict(b=Bint[bsz]), nu)) + Delta("v", Tensor(pv, OrderedDict(b=Bint[bsz]), nv))
+        rr = funsor.to_funsor(DD.reduce(ops.logaddexp, frozenset(["u", "b"])))
+        if set(rr.inputs) - {"v"}:
+            res.violation("delta:multi-partial-reduce", "reducing a two-variable Delta over {u, b} left inputs %s" % list(rr.inputs), case={"pu": pu, "pv": pv})
+        else:
+            okm = True
+            for val in range(nv):
+                x = funsor.to_funsor(rr(v=val)) if rr.inputs else rr
+                cnt = int(np.sum(pv == val))
+                target = math.log(cnt) if cnt else -math.inf
+                got = float(x.data)
+                if not (close(got, target) or (target == -math.inf and got == -math.inf)):
+                    okm = False
+                    res.violation("delta:multi-partial-reduce", "two-variable Delta reduced over {u, b} at v=%d gives %s, expected %s (points v=%s)" % (val, got, target, pv.tolist()), case={"pu": pu, "pv": pv})
+                    break
+            if okm:
+                res.count("delta-multi-partial-reduce:ok")
+    except Exception as e:
+        res.count("delta-multi-partial-reduce:declined:%s" % type(e).__name__)
     # real-valued variable: f is a lazy function of a real x
     xpt = np.round(rng.uniform(-1, 1, size=()), 2)
     fx = Variable("x", Real) * 2.0 + Tensor(np.round(rng.uniform(-1, 1, size=(bsz,)), 2), OrderedDict(b=Bint[bsz]))
